@@ -3,8 +3,11 @@ package props
 import (
 	"bytes"
 	"fmt"
+	"github.com/tobgu/qframe/config/newqf"
 	"math"
+	"os"
 	"sort"
+	"strconv"
 	"strings"
 	"testing"
 
@@ -157,6 +160,21 @@ func propC13(t *rapid.T) {
 	if werr != nil {
 		t.Fatalf("ToCSV error: %v\n%s", werr, desc())
 	}
+	// writing leaves the frame as it was: a plain ToCSV afterwards still starts with the frame's own column order, and
+	// the frame still observes as before (Columns(order) is about the output of that one call)
+	if after, err := hx.Observe(d.QF); err != nil || hx.Diff(in, after) != "" {
+		t.Fatalf("ToCSV changed the frame it wrote: %v %s\n%s", err, hx.Diff(in, after), desc())
+	}
+	if explicitOrder && len(in.Cols) > 1 {
+		var plain bytes.Buffer
+		if err := d.QF.ToCSV(&plain); err != nil {
+			t.Fatalf("plain ToCSV after ToCSV(Columns): %v\n%s", err, desc())
+		}
+		var ref bytes.Buffer
+		if err := d.QF.ToCSV(&ref, csv.Columns(in.Names())); err != nil || !bytes.Equal(plain.Bytes(), ref.Bytes()) {
+			t.Fatalf("a plain ToCSV after ToCSV(Columns(%q)) does not write the frame's own column order %q: %v\n%s\n%s", order, in.Names(), err, clipS(plain.String()), desc())
+		}
+	}
 	// read back with the frame's types declared
 	typs := map[string]string{}
 	enumVals := map[string][]string{}
@@ -286,4 +304,65 @@ func propC13(t *rapid.T) {
 		classes = append(classes, "float-many-digits")
 	}
 	evC13.Case(in.N() >= 2 && d.NonIdentity() && (quoting || digits), desc, classes...)
+}
+
+// TestC13Blocks: the round trip on frames of a few thousand rows, read back with RowCountHint values below, at and above
+// the real row count (the reader sizes its per-column storage from the hint once the document is longer than its
+// first estimate), from a frame that is not in storage order.
+func TestC13Blocks(t *testing.T) {
+	seed, _ := strconv.ParseUint(os.Getenv("VERIF_SHARD_SEED"), 10, 64)
+	rng := hx.SplitMix(seed)
+	sizes := []int{2100, 4100}
+	if tier() == "thorough" {
+		sizes = []int{2100, 4100, 9000, 33000}
+	}
+	decl := []string{"low", "mid", "high", "a,b", ""}
+	runs := 0
+	for _, n := range sizes {
+		ints, floats, strs, enums, ids := make([]int, n), make([]float64, n), make([]string, n), make([]string, n), make([]int, n)
+		for i := 0; i < n; i++ {
+			ints[i] = int(rng.Next()%2_000_001) - 1_000_000
+			floats[i] = float64(int64(rng.Next()%1_000_000)-500_000) / 64
+			strs[i] = []string{"s", "two words", "quo\"te", "com,ma", "line\nbreak", ""}[rng.Next()%6] + strconv.Itoa(int(rng.Next()%977))
+			if i > 1000 && rng.Next()%3 == 0 {
+				strs[i] += "-a-longer-cell-after-the-first-thousand-rows-" + strconv.Itoa(i)
+			}
+			enums[i] = decl[rng.Next()%uint64(len(decl))]
+			ids[i] = i
+		}
+		qf := qframe.New(map[string]interface{}{"id": ids, "i": ints, "f": floats, "s": strs, "e": enums},
+			newqf.ColumnOrder("s", "i", "f", "e", "id"), newqf.Enums(map[string][]string{"e": decl})).Sort(qframe.Order{Column: "i"}, qframe.Order{Column: "id"})
+		if qf.Err != nil {
+			t.Fatal(qf.Err)
+		}
+		want, err := hx.Observe(qf)
+		if err != nil {
+			t.Fatal(err)
+		}
+		var buf bytes.Buffer
+		if err := qf.ToCSV(&buf); err != nil {
+			t.Fatal(err)
+		}
+		for _, hint := range []int{0, 1500, 2001, 2050, n - 50, n, 2 * n} {
+			fns := []csv.ConfigFunc{csv.Types(map[string]string{"id": "int", "i": "int", "f": "float", "s": "string", "e": "enum"}), csv.EnumValues(map[string][]string{"e": decl})}
+			if hint > 0 {
+				fns = append(fns, csv.RowCountHint(hint))
+			}
+			back := qframe.ReadCSV(bytes.NewReader(buf.Bytes()), fns...)
+			if back.Err != nil {
+				t.Fatalf("reading back %d rows with RowCountHint(%d): %v", n, hint, back.Err)
+			}
+			got, err := hx.Observe(back)
+			if err != nil {
+				t.Fatal(err)
+			}
+			if diff := hx.Diff(want, got); diff != "" {
+				t.Fatalf("round trip of %d rows read back with RowCountHint(%d) differs: %s", n, hint, diff)
+			}
+			runs++
+		}
+	}
+	evC13.CaseHash(true, seed, func() string {
+		return fmt.Sprintf("block sizes: %v rows x RowCountHint below/at/above the row count (%d round trips)", sizes, runs)
+	}, "block-sizes")
 }
